@@ -268,7 +268,7 @@ def tok_finish(out, TC, tok, results, exe, exe_rel, prop, keep_err, what, bounds
                 if got != exp:
                     out.violation("XML %s is not the normalised input (CR/CRLF -> LF, NUL -> U+FFFD, nothing else) [input %r, chunks %s]: got %r, expected %r" % (
                         "attribute value" if v.get("where") == "attr" else "character data", chs(v["chars"]), v.get("lens"), chs(got or []), chs(exp)),
-                        {"engine": "mirsym", "kind": "xmlnorm", "case": tok.case_text(cfg, chunks), "native": nat, "expected": exp}, key)
+                        {"engine": "mirsym", "kind": "xmlnorm", "case": tok.case_text(cfg, chunks), "native": nat, "expected": exp, "where": v.get("where")}, key)
                 else:
                     out.inconclusive.append("xmlnorm counter-example %r does not reproduce natively" % (v["chars"],))
                 continue
@@ -289,7 +289,7 @@ def tok_finish(out, TC, tok, results, exe, exe_rel, prop, keep_err, what, bounds
                 out.violation("%s: %s differs from the base run [start state %s, input %r, %s]: base %s | variant %s" % (
                     what, v["label"], v["state"], chs(v["chars"]), "variant input skips %d char(s)" % v["skip"] if v.get("skip") else "same input",
                     rep["dev"]["base"][:6], rep["dev"]["variant"][:6]),
-                    {"engine": "mirsym", "kind": "diff", "v": v, "native": rep}, key)
+                    {"engine": "mirsym", "kind": "diff", "v": v, "native": rep, "keep_err": keep_err}, key)
             else:
                 out.inconclusive.append("counter-example does not reproduce natively (model/encoding problem, not reported): %s %s %r" % (v["label"], v["state"], v["chars"]))
         for pn in r["panics"]:
@@ -863,6 +863,180 @@ def c10(out, tier):
     return finish_mc(out, npaths, obl, len(units), [{"bounds": bounds}])
 
 
+def c16_shapes(tier):
+    """skeletons x declaring position x declaration x root declaration x observer style.  Every '$..' atom is a symbolic
+    lower-case letter, so equal / different prefixes, URIs and local names are solver cases, not enumerated ones."""
+    S = lambda k, n, a=(): (k, n, list(a))
+    # skeleton items: (kind, tag letter); the tag letter names the element the end tag closes
+    skels = {
+        "child": ["S0", "E1", "X0"],
+        "sibling after closed child": ["S0", "S1", "X1", "E2", "X0"],
+        "grandchild": ["S0", "S1", "E2", "X1", "X0"],
+        "end tag closes two": ["S0", "S1", "S2", "X1", "E3", "X0"],
+        "short end tag": ["S0", "S1", "T", "E2", "X0"],
+        "empty script": ["S0", "C1", "E2", "X0"],
+        "two empty siblings": ["S0", "E1", "E2", "X0"],
+        "stray end tag": ["S0", "S1", "X9", "E2", "X1", "X0"],
+        "root empty": ["E0", "E1"],
+        "root empty script": ["C0", "E1"],
+        "after root closed": ["S0", "X0", "E1"],
+        "short tag closes root": ["S0", "T", "E1"],
+    }
+    decls = {"default": (None, "xmlns", "$u0"), "undeclare default": (None, "xmlns", ""), "prefix": ("xmlns", "$p0", "$u0"), "undeclare prefix": ("xmlns", "$p0", "")}
+    roots = {"none": [], "root default": [(None, "xmlns", "$u1")], "root prefix": [("xmlns", "$p1", "$u1")], "root both": [(None, "xmlns", "$u1"), ("xmlns", "$p1", "$u2")]}
+    styles = ["prefixed", "unprefixed"]
+    if tier == "quick":
+        roots = {k: roots[k] for k in ("root prefix", "root both")}
+    shapes = []
+    for sk, items in skels.items():
+        elems = [it for it in items if it[0] in "SEC"]
+        for di, dtag in enumerate(elems):
+            for dn, d in decls.items():
+                for rn, r in roots.items():
+                    for st in styles:
+                        if tier == "quick" and (hash_small(sk, di, dn, rn, st) % 3) != 0 and sk not in ("child",):
+                            continue
+                        shape, q = [], 0
+                        for it in items:
+                            k, idx = it[0], it[1:]
+                            if k in "SEC":
+                                attrs = []
+                                if idx == "0":
+                                    attrs += r
+                                if it == dtag and not (idx == "0" and any(x[:2] == d[:2] for x in r)):
+                                    attrs.append(d)
+                                q += 1
+                                # observers: a prefixed attribute (fresh symbolic prefix), an unprefixed one, placed before or
+                                # after the declarations
+                                obs = [("$q%d" % q, "x", "v%d" % q), (None, "y", "w")]
+                                attrs = (obs + attrs) if (q + di) % 2 else (attrs + obs)
+                                name = ("$n%d" % q, "l%s" % idx) if st == "prefixed" else (None, "l%s" % idx)
+                                if k == "C":
+                                    name = (name[0], "script")
+                                shape.append(S("StartTag" if k == "S" else "EmptyTag", name, attrs))
+                            elif k == "X":
+                                # the end tag repeats the name of the start tag it closes (9 = an element that is not open)
+                                tgt = [x for x in shape if x[0] == "StartTag" and x[1][1] == "l%s" % idx]
+                                shape.append(S("EndTag", tgt[0][1] if tgt else (None, "zz")))
+                            else:
+                                shape.append(S("ShortTag", (None, "")))
+                        shapes.append({"name": "%s / %s on element %d / %s / %s names" % (sk, dn, di, rn, st), "shape": shape})
+    # literal shapes: fixed prefixes, refused declarations, duplicate expanded names, declaration after use
+    XML_URI = "http://www.w3.org/XML/1998/namespace"
+    XMLNS_URI = "http://www.w3.org/2000/xmlns/"
+    lit = {
+        "xml prefix is fixed": [S("StartTag", (None, "a"), [("xml", "lang", "en"), ("xmlns", "xml", "$u0")]), S("EmptyTag", ("xml", "b"), [("xml", "space", "x")]), S("EndTag", (None, "a"))],
+        "xml prefix may be declared to the XML namespace": [S("StartTag", (None, "a"), [("xmlns", "xml", XML_URI), ("xml", "lang", "en")]), S("EndTag", (None, "a"))],
+        "xmlns prefix cannot be declared": [S("StartTag", (None, "a"), [("xmlns", "xmlns", "$u0"), ("$p0", "x", "v")]), S("EmptyTag", ("xmlns", "b")), S("EndTag", (None, "a"))],
+        "XMLNS URI cannot be bound": [S("StartTag", ("$p0", "a"), [("xmlns", "$p1", XMLNS_URI), (None, "xmlns", XMLNS_URI)]), S("EmptyTag", (None, "b"), [("$p2", "x", "v")]), S("EndTag", ("$p0", "a"))],
+        "two prefixes, one expanded attribute name": [S("StartTag", (None, "a"), [("xmlns", "$p0", "$u0"), ("xmlns", "$p1", "$u1"), ("$p2", "$l0", "1"), ("$p3", "$l1", "2"), ("$p4", "$l0", "3")]), S("EndTag", (None, "a"))],
+        "declaration after use": [S("StartTag", ("$p2", "a"), [("$p3", "x", "1"), ("$p4", "x", "2"), ("xmlns", "$p0", "$u0"), ("xmlns", "$p1", "$u1")]), S("EndTag", ("$p2", "a"))],
+        "unprefixed and unbound-prefix attribute with one local name": [S("StartTag", (None, "a"), [(None, "x", "1"), ("$p0", "x", "2"), ("xmlns", "$p1", "$u0")]), S("EndTag", (None, "a"))],
+        "shadowing three deep": [S("StartTag", ("$p0", "a"), [("xmlns", "$p0", "$u0")]), S("StartTag", ("$p1", "b"), [("xmlns", "$p1", "$u1")]), S("StartTag", ("$p2", "c"), [("xmlns", "$p2", "$u2"), ("$p0", "x", "1")]),
+                                 S("EmptyTag", ("$p3", "d"), [("$p1", "y", "2")]), S("EndTag", ("$p2", "c")), S("EmptyTag", ("$p3", "e")), S("EndTag", ("$p1", "b")), S("EmptyTag", ("$p3", "f")), S("EndTag", ("$p0", "a"))],
+        "default namespace three deep": [S("StartTag", (None, "a"), [(None, "xmlns", "$u0")]), S("StartTag", (None, "b"), [(None, "xmlns", "$u1")]), S("StartTag", (None, "c"), [(None, "xmlns", "")]),
+                                         S("EmptyTag", (None, "d"), [(None, "x", "1")]), S("EndTag", (None, "c")), S("EmptyTag", (None, "e")), S("EndTag", (None, "b")), S("EmptyTag", (None, "f")), S("EndTag", (None, "a"))],
+        "end tag name resolved in scope": [S("StartTag", ("$p0", "a"), [("xmlns", "$p0", "$u0"), ("xmlns", "$p1", "$u1")]), S("StartTag", ("$p2", "a")), S("EndTag", ("$p3", "a")), S("EmptyTag", ("$p4", "b")), S("EndTag", ("$p0", "a")), S("EmptyTag", (None, "c"))],
+        "empty script then sibling": [S("StartTag", (None, "r"), [("xmlns", "$p0", "$u0")]), S("EmptyTag", ("$p1", "script"), [("xmlns", "$p2", "$u1"), (None, "xmlns", "$u2")]), S("EmptyTag", ("$p3", "b")), S("EmptyTag", (None, "c")), S("EndTag", (None, "r"))],
+        "nested script elements": [S("StartTag", (None, "script"), [("xmlns", "$p0", "$u0")]), S("EmptyTag", ("$p1", "script"), [("xmlns", "$p2", "$u1")]), S("EmptyTag", ("$p3", "b")), S("EndTag", (None, "script")), S("EmptyTag", ("$p3", "c"))],
+    }
+    for n, sh in lit.items():
+        shapes.append({"name": n, "shape": sh})
+    return shapes
+
+
+def hash_small(*xs):
+    import zlib
+    return zlib.crc32(repr(xs).encode()) + C.seed()
+
+
+def c16(out, tier):
+    from lib import tokchecks as TC
+    from mirsym import tok
+    import random
+    TC_, tok_, prog, mir, ent, exe, exe_rel = xml_setup(out)
+    SRC = ["xml5ever/src/tree_builder/mod.rs", "xml5ever/src/tree_builder/types.rs", "markup5ever/interface/mod.rs"]
+    out.extra.update({"source_hash": C.src_hash(SRC), "source_files": SRC})
+    shapes = c16_shapes(tier)
+    # ---- encoder self-validation: concrete instances of the shapes through the interpreted MIR and through the natively
+    # built XmlTreeBuilder (RcDom sink) must create the same elements
+    rnd = random.Random(4000 + C.seed())
+    nval = 60 if tier == "quick" else 300
+    picks = [rnd.choice(shapes) for _ in range(nval)]
+    conc = []
+    for sh in picks:
+        atoms = sorted({x for t in sh["shape"] for x in ([t[1][0], t[1][1]] + [y for a in t[2] for y in a]) if isinstance(x, str) and x.startswith("$")})
+        letters = "abc" if rnd.random() < 0.7 else "abcdefgh"
+        conc.append({"name": sh["name"], "shape": sh["shape"], "concrete": {a: ord(rnd.choice(letters)) for a in atoms}})
+    vres = TC.run_units_fn(TC.unit_c16, conc, mir, ent, crate="xml5ever")
+    by = {(r["unit"], i): r for i, r in enumerate(vres)}
+    bad, nat_vs_oracle = [], []
+    dumps = {}
+    for r in vres:
+        dumps.setdefault(r["unit"], []).append(r)
+    for cu in conc:
+        nat, case = TC.c16_native_text(exe, cu["shape"], cu["concrete"])
+        cands = [r.get("dump") for r in dumps.get("C16 %s" % cu["name"], [])]
+        errs = [e for r in dumps.get("C16 %s" % cu["name"], []) for e in r["errors"]]
+        if errs:
+            bad.append("%s: %s" % (cu["name"], errs[0][-300:]))
+        elif nat not in cands:
+            bad.append("%s %r: native %r, interpreted %r" % (cu["name"], cu["concrete"], nat[:4], cands[:1]))
+    out.extra["self_validation"] = {"cases": nval, "mismatches": len(bad), "what": "concrete instances: interpreted MIR of XmlTreeBuilder vs the native build over RcDom"}
+    if bad:
+        for b in bad[:5]:
+            out.inconclusive.append("self-validation: " + b[:600])
+        return finish_mc(out, 0, 0, 0, ["self-validation failed"])
+    res = TC.run_units_fn(TC.unit_c16, shapes, mir, ent, crate="xml5ever")
+    npaths = sum(r["paths"] for r in res)
+    obl = sum(r["obligations"] for r in res)
+    out.queries += sum(r["queries"] for r in res)
+    byname = {s_["name"]: s_ for s_ in shapes}
+    seen = set()
+    for r in res:
+        for e in r["errors"]:
+            out.inconclusive.append("%s: %s" % (r["unit"], e[-300:]))
+        for v in r["violations"] + [dict(p, shape=p["state"], what=p["what"]) for p in r["panics"]]:
+            key = "C16|%s" % v["shape"]
+            if key in seen:
+                continue
+            seen.add(key)
+            sh = byname[v["shape"]]["shape"]
+            concrete = {k: x for k, x in (v.get("syms") or {}).items()}
+            atoms = {x for t in sh for x in ([t[1][0], t[1][1]] + [y for a in t[2] for y in a]) if isinstance(x, str) and x.startswith("$")}
+            for a in atoms:
+                concrete.setdefault(a, ord("a"))
+            nat, case = TC.c16_native_text(exe, sh, concrete)
+            nat_rel, _ = TC.c16_native_text(exe_rel, sh, concrete)
+            try:
+                want = TC.c16_expected_text(sh, concrete)
+            except TC.OutOfScope:
+                out.inconclusive.append("C16 counter-example for %r is outside the stated scope (duplicate attribute names)" % v["shape"])
+                continue
+            if nat != want or nat_rel != want:
+                out.violation("XML tree builder, %s with %s: created %s but lexical scoping gives %s" % (
+                    v["shape"], {k: chr(x) for k, x in sorted(concrete.items())}, nat if nat != want else nat_rel, want),
+                    {"engine": "mirsym", "kind": "xmltree", "case": case, "native": nat, "expected": want}, key)
+            else:
+                out.inconclusive.append("C16 counter-example for %r does not reproduce natively" % v["shape"])
+    oos = sum(r.get("out_of_scope", 0) for r in res)
+    bounds = ("%d tag sequences (up to 9 tags, nesting depth 3): 12 skeletons of start / empty / end / short tags incl. empty <script/>, an end tag closing two elements, a stray end tag and "
+              "content after the root x the element carrying the declaration x {xmlns=u, xmlns='', xmlns:p=u, xmlns:p=''} x root declarations x prefixed / unprefixed element names, plus %d literal shapes "
+              "(xml / xmlns prefixes, refused declarations, duplicate expanded attribute names, declaration after use, shadowing three deep); every prefix, URI and varying local name is a symbolic "
+              "lower-case letter") % (len(shapes), 13)
+    out.units.append({"engine": "mirsym + z3", "what": "XmlTreeBuilder::{new, process_token -> step, process_namespaces, insert_ns, find_uri, bind_qname, bind_attr_qname, close_tag, pop} (interpreted MIR) on tag tokens; "
+                      "create_element calls == lexical-scope resolver (in the check)", "bounds": bounds, "work_units": len(res), "paths_explored": npaths, "obligations": obl,
+                      "path_conditions_outside_scope": oos})
+    out.extra["models_used"] = sorted(set(x for r in res for x in r.get("models_used", [])))
+    out.assumptions += M_ASSUME[:1] + [
+        "the tree builder is driven with tag tokens directly (the tokenizer's qualified-name split and duplicate-attribute check are not part of this check: C10/C15 cover the tokenizer); "
+        "path conditions under which two attributes of one tag have the same qualified name are skipped, since the tokenizer never emits such a tag",
+        "namespace declarations (xmlns, xmlns:p) are namespace information: that the builder removes them from the attribute list is not counted as losing an attribute",
+        "BTreeMap / HashSet with symbolic atom keys are modelled as association lists with solver-decided key equality; the sink is a recording model of TreeSink",
+        "prefixes and URIs are one-letter atoms (equality structure is what namespace resolution depends on); multi-letter literal atoms only in the literal shapes"]
+    return finish_mc(out, npaths, obl, len(shapes), [{"bounds": bounds}])
+
+
 def c17(out, tier):
     from lib import tokchecks as TC
     from mirsym import tok
@@ -1066,7 +1240,7 @@ def tok_finish_c01(out, TC, tok, prog, results, exe, exe_rel, bounds):
     return npaths, obl
 
 
-PROPS = {"C01": c01, "C10": c10, "C11": c11, "C12": c12, "C17": c17, "C14": c14, "C15": c15, "C19": c19, "C07": c07, "C13": c13, "C03": c03, "C04": c04, "C08": c08, "C09": c09}
+PROPS = {"C01": c01, "C10": c10, "C16": c16, "C11": c11, "C12": c12, "C17": c17, "C14": c14, "C15": c15, "C19": c19, "C07": c07, "C13": c13, "C03": c03, "C04": c04, "C08": c08, "C09": c09}
 
 
 def replay(path):
@@ -1080,11 +1254,102 @@ def replay(path):
         if bad:
             print("VIOLATION property=%s replay=%s" % (r["property"], path))
         return 1 if bad else 0
-    if r.get("engine") == "mirsym":
-        from lib import tok_replay
-        return tok_replay.replay_case(r, path)
+    if r.get("engine") in ("mirsym", "table"):
+        return replay_native(r, path)
     print("unknown replay file")
     return 2
+
+
+def replay_native(r, path):
+    """re-run a stored counter-example against the natively built current tree (dev and release) and re-evaluate the verdict"""
+    import subprocess
+    from mirsym import build, tok
+    from lib import tokchecks as TC
+    kind = r.get("kind") or r.get("engine")
+    if kind == "table":
+        import re
+        _, ent, _ = build.dump_mir("html5ever")
+        class _P:
+            pass
+        got = tok.load_entities(_P(), ent).get(r["key"])
+        got = list(got) if got is not None else None
+        print("generated table entry for %r: %r, expected %r" % (r["key"], got, r["expected"]))
+        bad = got != (list(r["expected"]) if r["expected"] is not None else None)
+    else:
+        exes = {"dev": build.replay_binary("dev"), "release": build.replay_binary("release")}
+        bad = False
+        for prof, exe in exes.items():
+            def run(case):
+                return tok.native_run(exe, case)
+            if kind == "xmltree":
+                nat = run(r["case"])
+                b = nat != r["expected"]
+            elif kind == "xmlser":
+                def merge(xs):
+                    o = []
+                    for x in xs:
+                        if x.startswith("text ") and o and o[-1].startswith("text "):
+                            o[-1] += x[5:]
+                        elif x != "text ":
+                            o.append(x)
+                    return o
+                nat = run(r["case"])
+                b = merge(nat[1:]) != merge(r["expected"])
+            elif kind == "xmlnorm":
+                nat = run(r["case"])
+                if r.get("where") == "attr":
+                    got = None
+                    for l in nat:
+                        mm = __import__("re").match(r"XTag \w+ \[[^\]]*\] \[[0-9a-f,:]*=([0-9a-f,]*)", l)
+                        if mm:
+                            got = [int(x, 16) for x in mm.group(1).split(",") if x]
+                else:
+                    got = []
+                    for l in nat:
+                        if l.startswith("Chars "):
+                            got += [int(x, 16) for x in l[6:].rpartition(" @")[0].split(",") if x]
+                b = got != r["expected"]
+            elif kind == "line-oracle":
+                nat = run(r["case"])
+                b = not native_line_check(r["chars"], nat)
+            elif kind == "panic":
+                nat = run(r["case"])
+                b = any(l.startswith("PANIC") or "QUEUE-NOT-EMPTY" in l for l in nat) or sum(1 for l in nat if l.startswith("EOF")) != 1
+            elif kind == "diff":
+                rep = TC.replay_diff(r["v"], exe, None, r.get("keep_err", True))
+                nat = rep
+                b = any(x.get("differs") for x in rep.values())
+            elif kind == "decode":
+                bs = bytes.fromhex(r["bytes"])
+                chunks, pos = [], 0
+                for l in r["lens"]:
+                    chunks.append(bs[pos:pos + l])
+                    pos += l
+                inp = "mode decode\n" + "".join("bytes %s\n" % bytes(c).hex() for c in chunks)
+                p_ = subprocess.run([exe], input=inp.encode(), stdout=subprocess.PIPE, stderr=subprocess.PIPE, timeout=30)
+                nat = p_.stdout.decode(errors="replace").strip() if p_.returncode == 0 else "PANIC " + p_.stderr.decode(errors="replace")[-200:]
+                b = nat != r["expected"]
+            elif kind == "meta":
+                nat = meta_native(exe, r["content"])
+                b = nat != ("none" if r["reference"] is None else "label:" + r["reference"])
+            elif kind == "spec":
+                v = r["v"]
+                nat = [x for x, _ in TC.normalize_native(TC.native_obs(exe, TC.mk_cfg(v["base"]), [v["chars"]]), keep_err=False)]
+                b = nat != r["reference"]
+            else:
+                print("unknown replay kind %r" % kind)
+                return 2
+            print("[%s] native: %s" % (prof, json.dumps(nat)[:1500]))
+            bad = bad or b
+        for k_ in ("expected", "reference"):
+            if k_ in r:
+                print("%s: %s" % (k_, json.dumps(r[k_])[:1500]))
+    print(r.get("what", ""))
+    if bad:
+        print("VIOLATION property=%s replay=%s" % (r["property"], path))
+        return 1
+    print("does not reproduce on the current tree")
+    return 0
 
 
 def main():
